@@ -1,5 +1,6 @@
 """C13 — NAND: each partition is decrypted with the keyslot and counter its type dictates."""
 import io
+import struct
 
 import envsetup
 import nandbuild as nb
@@ -180,6 +181,12 @@ class C13(Check):
         return 80 if tier == 'quick' else 800
 
     def gen(self, rng, tier, i):
+        if rng.chance(0.1):
+            # partitions placed far out (byte offsets beyond 2^32, block numbers beyond 2^28..2^36) on a virtual image
+            return {'huge': True, 'seed': rng.getrandbits(32), 'dev': int(rng.chance(0.3)), 'new3ds': int(rng.chance(0.5)),
+                    'base_mu': rng.pick([1 << 23, (1 << 23) + 5, 1 << 27, (1 << 31) - 64, 0x00FFFFF0]),
+                    'reads': [[rng.randrange(5), rng.pick([0, 1, 15, 16, 0x1F3, 0x200, 0x3FF]), rng.pick([1, 16, 17, 40])]
+                              for _ in range(rng.randint(2, 6))]}
         desc = gen_desc(rng)
         views = [['raw', i] for i, p in enumerate(desc['parts']) if p is not None] + \
                 [['raw', k] for k in (-3, -5, -11, -12, -13, -14, -15, -2, -6, 6)] + \
@@ -192,7 +199,71 @@ class C13(Check):
             runs.append({'view': v, 'ops': gen_ops(rng, ln, writes=(not special) and rng.chance(0.6), queries=False)})
         return {'desc': desc, 'runs': runs}
 
+    def run_huge(self, case, drv):
+        """NCSD table with the five standard partitions far out on a virtual image; every raw partition view must decrypt with the
+        keyslot of its type and counter = base counter + (absolute offset >> 4)"""
+        from corr_c01 import VirtualFile
+        from pyctr.type.nand import NAND
+        e = envsetup.install()
+        dev = bool(case['dev'])
+        target = 'dev' if dev else 'retail'
+        blob = e._b9_keyblob[target]
+        okey, oiv = e._otp_key_iv[target]
+        rng = Rng(case['seed'])
+        _, dec, enc = nb.make_otp(rng, False, okey, oiv)
+        cid = rng.rbytes(16)
+        keys = nb.console_keys(dec, enc, blob, dev)
+        c_ctr, c_twl = nb.counters(cid)
+        types = [(1, 1), (4, 2), (3, 2), (3, 2), (1, 3 if case['new3ds'] else 2)]
+        fs, cr, table = bytearray(8), bytearray(8), bytearray(0x40)
+        pos = case['base_mu']
+        parts = []
+        for i, (f_, c_) in enumerate(types):
+            size = 8 + i
+            fs[i], cr[i] = f_, c_
+            table[8 * i:8 * i + 8] = struct.pack('<II', pos & 0xFFFFFFFF, size)
+            parts.append((pos, size, {1: 'twl', 2: 'ctr_old', 3: 'ctr_new'}.get(c_) if f_ == 1 else
+                          ('firm' if f_ == 3 else ('agb' if f_ == 4 else None))))
+            pos += size + 3
+        if pos >= 1 << 32:
+            return CaseResult('skip', 'skip', [], '', None, {'mode:huge-skip': 1})
+        header = rng.rbytes(0x100) + b'NCSD' + struct.pack('<IQ', 0x200000, 0) + bytes(fs) + bytes(cr) + bytes(table) + \
+            rng.rbytes(0x5E) + bytes(0x42)
+        assert len(header) == 0x200, len(header)
+        vf = VirtualFile(1 << 44, rng.rbytes(8))
+        for i, b in enumerate(header):
+            vf.written[i] = b
+        mon, outs = [], []
+        try:
+            nand = NAND(vf, dev=dev, otp=dec, cid=cid, auto_raise_exceptions=False)
+        except Exception as ex:     # noqa
+            return CaseResult('e:' + exc_name(ex), 'ok', [f'NAND with partitions at media unit {case["base_mu"]:#x} could not be opened: {exc_name(ex)}'],
+                              'huge', 'nand.huge', {'mode:huge': 1})
+        for idx, rel, n in case['reads']:
+            o_mu, size, kind = parts[idx]
+            o = o_mu * 0x200
+            rel = min(rel, size * 0x200 - n)
+            try:
+                fh = nand.open_raw_section(idx)
+                fh.seek(rel)
+                got = fh.read(n)
+            except Exception as ex:     # noqa
+                outs.append('e:' + exc_name(ex))
+                mon.append(f'partition {idx} ({kind}) at {o:#x}: read raised {exc_name(ex)}')
+                continue
+            ct = vf.content(o + rel, n)
+            slot = {'twl': 'twl', 'ctr_old': 'ctr_old', 'ctr_new': 'ctr_new', 'firm': 'firm', 'agb': 'agb'}[kind]
+            exp = nb.ctr_xor(keys[nb.SLOT[slot]], c_twl if kind == 'twl' else c_ctr, o + rel, ct, kind == 'twl')
+            outs.append(got.hex())
+            if got != exp:
+                mon.append(f'partition {idx} ({kind}) at byte offset {o:#x}: read({n}) at +{rel:#x} is not the decryption under '
+                           f'counter + (offset >> 4)')
+        real = ' '.join(outs)
+        return CaseResult(real, real, mon, 'huge:%d' % case['seed'], 'nand.huge' if mon else None, {'mode:huge': 1})
+
     def run_case(self, case, drv):
+        if case.get('huge'):
+            return self.run_huge(case, drv)
         desc = case['desc']
         img, info = materialise(desc)
         mon = []
@@ -364,6 +435,11 @@ class C13(Check):
         return drv.ask(sexp(['nand-ops'] + args + [view, [op_sexp(o) for o in ops]]))
 
     def shrink(self, case):
+        if case.get('huge'):
+            for i in range(len(case['reads'])):
+                if len(case['reads']) > 1:
+                    yield dict(case, reads=case['reads'][:i] + case['reads'][i + 1:])
+            return
         runs = case['runs']
         for i in range(len(runs)):
             c = dict(case)
